@@ -103,11 +103,15 @@ pub fn gen(seed: u64, thorough: bool) {
     let nv = if thorough { 120 } else { 14 };
     for i in 0..nv {
         let cfg = VoiceCfg { nstream: rng.range(2, 3), stage: if i % 3 == 0 { rng.range(1, 3) } else { 0 }, nstate: rng.range(1, 7), max_leaves: rng.range(2, 12) };
-        let spec = VoiceSpec::random(&mut rng, &cfg, &src.pool);
+        let mut spec = VoiceSpec::random(&mut rng, &cfg, &src.pool);
+        if i % 2 == 1 { spec.vary_shapes(&mut rng); }
         let path = format!("{}/voices/C04_{}_{}.htsvoice", work_dir(), seed, i);
         spec.write(&path);
-        let v = load_htsvoice_file(&path).expect("generated voice loads");
-        let e = Engine::load(&[&path]).expect("engine loads");
+        let (v, e) = match (load_htsvoice_file(&path), Engine::load(&[&path])) {
+            (Ok(v), Ok(e)) => (v, e),
+            (Err(err), _) => { println!("htsmeta {} loaderr {}", path, esc(&format!("{err:?}"))); continue; }
+            (_, Err(err)) => { println!("htsmeta {} loaderr {}", path, esc(&format!("{err:?}"))); continue; }
+        };
         println!("{}", meta_line(&path, &v, &e));
         let n = if thorough { 60 } else { 20 };
         let mut labels = src.labels(&mut rng, n / 2, false);
